@@ -19,6 +19,9 @@ def gen(rng, n):
         ["N 2 slow=1", "A 1 1 1", "KA l 1 1 1", "C", "KA r 1 1 1", "C", "E"],
         ["N 1 slow=1", "A 1 1 1", "C", "KA l 1 1 1", "C", "E"],
         ["N 3 slow=1", "A 1 1 1", "A 1 1 1", "KA r 1 1 1", "C", "KA l 1 1 1", "C", "K r", "K r", "K r", "C", "E"],
+        # a transient ping failure on one session (it stays open and registered) coincides with changes of the session table
+        ["N 3 slow=0", "A 1 1 1", "A 1 1 1", "H", "A 1 1 1", "C", "HR", "C", "K l", "C", "E"],
+        ["N 2 slow=0", "A 1 1 1", "A 1 1 1", "H", "K l", "C", "HR", "C", "E"],
         # the channel goes idle between calls; sessions come and go while it is idle
         ["N 2 slow=0 idle=1", "A 1 1 1", "A 1 1 1", "C", "I", "C", "KA r 1 1 1", "I", "C", "K l", "I", "C", "E"],
         ["N 1 slow=0 idle=1", "A 1 1 1", "C", "I", "KA l 1 1 1", "I", "C", "E"],
